@@ -1385,7 +1385,7 @@ static void runBy(const ByCase& bc, Ctx& ctx)
   if (all.empty()) { ctx.label("no-data"); return; }
   int nbfl = monoCount(c.ndim, c.order) + c.nfex, nf = nv * nbfl;
   bool dropped = (int)all.size() != c.n();
-  std::string cls = (nv > 1) ? "multivariate" : (dropped ? "masked-or-undefined-samples" : (nbfl > 1 ? "drift-functions" : "constant-mean"));
+  std::string cls = (nv > 1) ? "multivariate" : (nbfl > 1 ? "drift-functions" : (dropped ? "masked-or-undefined-samples" : "constant-mean"));
   ctx.label("bayes:" + cls);
   KcIn in;
   if (!buildKcIn(c, w.dbin.get(), w.dbout.get(), ctx, in)) return;
@@ -1427,13 +1427,6 @@ static void runBy(const ByCase& bc, Ctx& ctx)
   double kap = std::max(in.kappaSigma, std::max(kq, kp));
   double er = std::max(1e-9, 1e3 * kEps * in.kappaSigma * std::max(kq, kp));
 
-  // kribayes() overruns its buffers when samples are masked or wholly undefined (recorded finding): the call
-  // is only skipped when that finding is passed in the exclusion list, so that the search can go on behind it
-  if (dropped && vf::isExcluded("asan:kribayes:masked-or-undefined-samples"))
-  {
-    ctx.fail("asan:kribayes:masked-or-undefined-samples", "known: heap-buffer-overflow in KrigingSystem::_bayesPreCalculations");
-    return;
-  }
   ctx.at("kribayes");
   int err = kribayes(w.dbin.get(), w.dbout.get(), w.model.get(), w.neigh.get(), pm, pc, true, true, NamingConvention("BY"));
   std::vector<double> be((size_t)(nt * nv), NA), bs((size_t)(nt * nv), NA);
